@@ -14,6 +14,9 @@ use std::sync::atomic::{AtomicU64, Ordering};
 use std::time::{Duration, Instant};
 use util::{Rng, Stats, Tier, guarded};
 
+#[global_allocator]
+static ALLOC: monitor::guard::GuardAlloc = monitor::guard::GuardAlloc;
+
 pub const VERIF_DIR: &str = "/verif";
 
 #[derive(Copy, Clone, PartialEq, Eq, Debug)]
@@ -326,9 +329,16 @@ fn run_children(
                             } else {
                                 pr.note.clone()
                             };
+                            // signature = class part of the note (before '|')
+                            let class = what
+                                .split('|')
+                                .next()
+                                .unwrap_or("")
+                                .trim()
+                                .to_string();
                             st.violation(
                                 c,
-                                format!("crash:{how}:{what}"),
+                                format!("crash:{how}:{class}"),
                                 format!(
                                     "child process died ({how}) while running case {c}: {what}"
                                 ),
